@@ -958,8 +958,27 @@ fn take_run<T: RunEndIndexType, I: ArrowPrimitiveType>(
     run_array: &RunArray<T>,
     logical_indices: &PrimitiveArray<I>,
 ) -> Result<RunArray<T>, ArrowError> {
-    // get physical indices for the input logical indices
-    let physical_indices = run_array.get_physical_indices(logical_indices.values())?;
+    // get physical indices for the input logical indices; a null index has no physical index
+    // (the value stored under it is arbitrary) and selects a null
+    let physical_indices: Vec<Option<usize>> =
+        match logical_indices.nulls().filter(|n| n.null_count() > 0) {
+            None => run_array
+                .get_physical_indices(logical_indices.values())?
+                .into_iter()
+                .map(Some)
+                .collect(),
+            Some(nulls) => {
+                let valid_indices: Vec<I::Native> = nulls
+                    .valid_indices()
+                    .map(|ix| logical_indices.values()[ix])
+                    .collect();
+                let mut resolved = run_array.get_physical_indices(&valid_indices)?.into_iter();
+                nulls
+                    .iter()
+                    .map(|valid| valid.then(|| resolved.next().unwrap()))
+                    .collect()
+            }
+        };
 
     // Run encode the physical indices into new_run_ends
     // Keep track of the physical indices to take in take_value_indices
@@ -976,14 +995,19 @@ fn take_run<T: RunEndIndexType, I: ArrowPrimitiveType>(
     for ix in 1..physical_indices.len() {
         let prev_idx = physical_indices[ix - 1];
         let cur_idx = physical_indices[ix];
-        let is_new_run = cur_idx != prev_idx && values_cmp(cur_idx, prev_idx).is_ne();
+        let is_new_run = match (cur_idx, prev_idx) {
+            (Some(cur), Some(prev)) => cur != prev && values_cmp(cur, prev).is_ne(),
+            (None, None) => false,
+            _ => true,
+        };
         if is_new_run {
-            take_value_indices.push(I::Native::from_usize(prev_idx).unwrap());
+            take_value_indices.push(prev_idx.map(|idx| I::Native::from_usize(idx).unwrap()));
             new_run_ends.push(T::Native::from_usize(ix).unwrap());
         }
     }
-    take_value_indices
-        .push(I::Native::from_usize(physical_indices[physical_indices.len() - 1]).unwrap());
+    take_value_indices.push(
+        physical_indices[physical_indices.len() - 1].map(|idx| I::Native::from_usize(idx).unwrap()),
+    );
     new_run_ends.push(T::Native::from_usize(physical_indices.len()).unwrap());
 
     // SAFETY: run-ends are strictly increasing with last value == logical length.
@@ -991,7 +1015,7 @@ fn take_run<T: RunEndIndexType, I: ArrowPrimitiveType>(
         RunEndBuffer::new_unchecked(ScalarBuffer::from(new_run_ends), 0, physical_indices.len())
     };
 
-    let take_value_indices = PrimitiveArray::<I>::new(ScalarBuffer::from(take_value_indices), None);
+    let take_value_indices: PrimitiveArray<I> = take_value_indices.into_iter().collect();
 
     let new_values = take(run_array.values(), &take_value_indices, None)?;
 
